@@ -19,15 +19,25 @@ func NewBool(v bool) *Bool {
 	b.v.Store(v)
 	return b
 }
-func (b *Bool) Load() bool   { sched.Op("atomic-load", b); return b.v.Load() }
-func (b *Bool) Store(v bool) { sched.Op("atomic-store", b); b.v.Store(v) }
+func (b *Bool) Load() bool { sched.Op("atomic-load", b); return b.v.Load() }
+func (b *Bool) Store(v bool) {
+	sched.Op("atomic-store", b)
+	defer sched.Post("atomic-store", b)
+	b.v.Store(v)
+}
 func (b *Bool) CAS(old, new bool) bool {
 	sched.Op("atomic-cas", b)
+	defer sched.Post("atomic-cas", b)
 	return b.v.CompareAndSwap(old, new)
 }
-func (b *Bool) Swap(new bool) bool { sched.Op("atomic-swap", b); return b.v.Swap(new) }
+func (b *Bool) Swap(new bool) bool {
+	sched.Op("atomic-swap", b)
+	defer sched.Post("atomic-swap", b)
+	return b.v.Swap(new)
+}
 func (b *Bool) Toggle() bool {
 	sched.Op("atomic-toggle", b)
+	defer sched.Post("atomic-toggle", b)
 	for {
 		o := b.v.Load()
 		if b.v.CompareAndSwap(o, !o) {
@@ -43,15 +53,32 @@ func NewInt32(v int32) *Int32 {
 	i.v.Store(v)
 	return i
 }
-func (i *Int32) Load() int32        { sched.Op("atomic-load", i); return i.v.Load() }
-func (i *Int32) Store(v int32)      { sched.Op("atomic-store", i); i.v.Store(v) }
-func (i *Int32) Add(n int32) int32  { sched.Op("atomic-add", i); return i.v.Add(n) }
-func (i *Int32) Sub(n int32) int32  { sched.Op("atomic-add", i); return i.v.Add(-n) }
-func (i *Int32) Inc() int32         { return i.Add(1) }
-func (i *Int32) Dec() int32         { return i.Sub(1) }
-func (i *Int32) Swap(n int32) int32 { sched.Op("atomic-swap", i); return i.v.Swap(n) }
+func (i *Int32) Load() int32 { sched.Op("atomic-load", i); return i.v.Load() }
+func (i *Int32) Store(v int32) {
+	sched.Op("atomic-store", i)
+	defer sched.Post("atomic-store", i)
+	i.v.Store(v)
+}
+func (i *Int32) Add(n int32) int32 {
+	sched.Op("atomic-add", i)
+	defer sched.Post("atomic-add", i)
+	return i.v.Add(n)
+}
+func (i *Int32) Sub(n int32) int32 {
+	sched.Op("atomic-add", i)
+	defer sched.Post("atomic-add", i)
+	return i.v.Add(-n)
+}
+func (i *Int32) Inc() int32 { return i.Add(1) }
+func (i *Int32) Dec() int32 { return i.Sub(1) }
+func (i *Int32) Swap(n int32) int32 {
+	sched.Op("atomic-swap", i)
+	defer sched.Post("atomic-swap", i)
+	return i.v.Swap(n)
+}
 func (i *Int32) CAS(old, new int32) bool {
 	sched.Op("atomic-cas", i)
+	defer sched.Post("atomic-cas", i)
 	return i.v.CompareAndSwap(old, new)
 }
 
@@ -62,15 +89,32 @@ func NewInt64(v int64) *Int64 {
 	i.v.Store(v)
 	return i
 }
-func (i *Int64) Load() int64        { sched.Op("atomic-load", i); return i.v.Load() }
-func (i *Int64) Store(v int64)      { sched.Op("atomic-store", i); i.v.Store(v) }
-func (i *Int64) Add(n int64) int64  { sched.Op("atomic-add", i); return i.v.Add(n) }
-func (i *Int64) Sub(n int64) int64  { sched.Op("atomic-add", i); return i.v.Add(-n) }
-func (i *Int64) Inc() int64         { return i.Add(1) }
-func (i *Int64) Dec() int64         { return i.Sub(1) }
-func (i *Int64) Swap(n int64) int64 { sched.Op("atomic-swap", i); return i.v.Swap(n) }
+func (i *Int64) Load() int64 { sched.Op("atomic-load", i); return i.v.Load() }
+func (i *Int64) Store(v int64) {
+	sched.Op("atomic-store", i)
+	defer sched.Post("atomic-store", i)
+	i.v.Store(v)
+}
+func (i *Int64) Add(n int64) int64 {
+	sched.Op("atomic-add", i)
+	defer sched.Post("atomic-add", i)
+	return i.v.Add(n)
+}
+func (i *Int64) Sub(n int64) int64 {
+	sched.Op("atomic-add", i)
+	defer sched.Post("atomic-add", i)
+	return i.v.Add(-n)
+}
+func (i *Int64) Inc() int64 { return i.Add(1) }
+func (i *Int64) Dec() int64 { return i.Sub(1) }
+func (i *Int64) Swap(n int64) int64 {
+	sched.Op("atomic-swap", i)
+	defer sched.Post("atomic-swap", i)
+	return i.v.Swap(n)
+}
 func (i *Int64) CAS(old, new int64) bool {
 	sched.Op("atomic-cas", i)
+	defer sched.Post("atomic-cas", i)
 	return i.v.CompareAndSwap(old, new)
 }
 
@@ -81,15 +125,32 @@ func NewUint32(v uint32) *Uint32 {
 	i.v.Store(v)
 	return i
 }
-func (i *Uint32) Load() uint32         { sched.Op("atomic-load", i); return i.v.Load() }
-func (i *Uint32) Store(v uint32)       { sched.Op("atomic-store", i); i.v.Store(v) }
-func (i *Uint32) Add(n uint32) uint32  { sched.Op("atomic-add", i); return i.v.Add(n) }
-func (i *Uint32) Sub(n uint32) uint32  { sched.Op("atomic-add", i); return i.v.Add(^(n - 1)) }
-func (i *Uint32) Inc() uint32          { return i.Add(1) }
-func (i *Uint32) Dec() uint32          { return i.Sub(1) }
-func (i *Uint32) Swap(n uint32) uint32 { sched.Op("atomic-swap", i); return i.v.Swap(n) }
+func (i *Uint32) Load() uint32 { sched.Op("atomic-load", i); return i.v.Load() }
+func (i *Uint32) Store(v uint32) {
+	sched.Op("atomic-store", i)
+	defer sched.Post("atomic-store", i)
+	i.v.Store(v)
+}
+func (i *Uint32) Add(n uint32) uint32 {
+	sched.Op("atomic-add", i)
+	defer sched.Post("atomic-add", i)
+	return i.v.Add(n)
+}
+func (i *Uint32) Sub(n uint32) uint32 {
+	sched.Op("atomic-add", i)
+	defer sched.Post("atomic-add", i)
+	return i.v.Add(^(n - 1))
+}
+func (i *Uint32) Inc() uint32 { return i.Add(1) }
+func (i *Uint32) Dec() uint32 { return i.Sub(1) }
+func (i *Uint32) Swap(n uint32) uint32 {
+	sched.Op("atomic-swap", i)
+	defer sched.Post("atomic-swap", i)
+	return i.v.Swap(n)
+}
 func (i *Uint32) CAS(old, new uint32) bool {
 	sched.Op("atomic-cas", i)
+	defer sched.Post("atomic-cas", i)
 	return i.v.CompareAndSwap(old, new)
 }
 
@@ -100,15 +161,32 @@ func NewUint64(v uint64) *Uint64 {
 	i.v.Store(v)
 	return i
 }
-func (i *Uint64) Load() uint64         { sched.Op("atomic-load", i); return i.v.Load() }
-func (i *Uint64) Store(v uint64)       { sched.Op("atomic-store", i); i.v.Store(v) }
-func (i *Uint64) Add(n uint64) uint64  { sched.Op("atomic-add", i); return i.v.Add(n) }
-func (i *Uint64) Sub(n uint64) uint64  { sched.Op("atomic-add", i); return i.v.Add(^(n - 1)) }
-func (i *Uint64) Inc() uint64          { return i.Add(1) }
-func (i *Uint64) Dec() uint64          { return i.Sub(1) }
-func (i *Uint64) Swap(n uint64) uint64 { sched.Op("atomic-swap", i); return i.v.Swap(n) }
+func (i *Uint64) Load() uint64 { sched.Op("atomic-load", i); return i.v.Load() }
+func (i *Uint64) Store(v uint64) {
+	sched.Op("atomic-store", i)
+	defer sched.Post("atomic-store", i)
+	i.v.Store(v)
+}
+func (i *Uint64) Add(n uint64) uint64 {
+	sched.Op("atomic-add", i)
+	defer sched.Post("atomic-add", i)
+	return i.v.Add(n)
+}
+func (i *Uint64) Sub(n uint64) uint64 {
+	sched.Op("atomic-add", i)
+	defer sched.Post("atomic-add", i)
+	return i.v.Add(^(n - 1))
+}
+func (i *Uint64) Inc() uint64 { return i.Add(1) }
+func (i *Uint64) Dec() uint64 { return i.Sub(1) }
+func (i *Uint64) Swap(n uint64) uint64 {
+	sched.Op("atomic-swap", i)
+	defer sched.Post("atomic-swap", i)
+	return i.v.Swap(n)
+}
 func (i *Uint64) CAS(old, new uint64) bool {
 	sched.Op("atomic-cas", i)
+	defer sched.Post("atomic-cas", i)
 	return i.v.CompareAndSwap(old, new)
 }
 
@@ -118,5 +196,6 @@ type Value struct{ v atomic.Value }
 func (v *Value) Load() interface{} { sched.Op("atomic-load", v); return v.v.Load() }
 func (v *Value) Store(x interface{}) {
 	sched.Op("atomic-store", v)
+	defer sched.Post("atomic-store", v)
 	v.v.Store(x)
 }
